@@ -167,6 +167,12 @@ pub fn mpmc_jobs(thorough: bool, finish: bool) -> Vec<Job> {
     v.push(job(Cfg::new("mpmc.shFix", &[("cap", 1), ("ks", 2), ("kr", 1), ("values", 3), ("stream", 0), ("handles", 2)]), finish, thorough));
     v.push(job(Cfg::new("mpmc.shFix", &[("cap", 2), ("ks", 1), ("kr", 0), ("values", 3), ("stream", 1), ("handles", 1)]), finish, thorough));
     v.push(job(Cfg::new("mpmc.arrL3", &[("cap", 3), ("ks", 2), ("kr", 1), ("values", 4), ("stream", 0)]), finish, thorough));
+    // more values than futures + slots, so that a later try_send can overtake a sender that a stale
+    // piece of bookkeeping left parked (both tiers: the 3-value configurations of the quick tier end
+    // before the overtaking value exists)
+    v.push(job(Cfg::new("mpmc.arrL1", &[("cap", 1), ("ks", 2), ("kr", 1), ("values", 4), ("stream", 0)]), finish, thorough));
+    v.push(job(Cfg::new("mpmc.arrL0", &[("cap", 0), ("ks", 2), ("kr", 1), ("values", 4), ("stream", 0)]), finish, thorough));
+    v.push(job(Cfg::new("mpmc.arrL3", &[("cap", 3), ("ks", 2), ("kr", 0), ("values", 6), ("stream", 0)]), finish, thorough));
     if thorough {
         v.push(job(Cfg::new("mpmc.arrL1", &[("cap", 1), ("ks", 3), ("kr", 3), ("values", 4), ("stream", 0)]), finish, true));
         v.push(job(Cfg::new("mpmc.arrL0", &[("cap", 0), ("ks", 3), ("kr", 3), ("values", 4), ("stream", 0)]), finish, true));
